@@ -202,8 +202,6 @@ package css
 //@ func Parser.parseStylesheet
 //@   preserves[S] cpInv(p) && p.l.r.pos >= old(p.l.r.pos)
 //@   requires[S] p.state[len(p.state)-1] == self() || (isBlockState(p.state[len(p.state)-1]) && !isBlockState(self()) && p.tt != ErrorToken && p.tt != SemicolonToken && p.tt != CommentToken && p.tt != RightBraceToken)
-//@   ensures[S,C01] @measure: cpM(p) <= old(cpM(p)) + ite(old(p.tt) == LeftBraceToken, 1, 0)
-//@   ensures[S,C01] @eof-step: old(p.tt) == ErrorToken ==> cpM(p) < old(cpM(p)) || (result == ErrorGrammar && len(p.state) == 1)
 //@   ensures[F,C08] @begin-atrule: result == BeginAtRuleGrammar ==> len(p.state) == old(len(p.state)) + 1 && isAtRuleBlock(p.state[len(p.state)-1])
 //@   ensures[F,C08] @begin-ruleset: result == BeginRulesetGrammar ==> len(p.state) == old(len(p.state)) + 1 && p.state[len(p.state)-1] == fn("css.Parser.parseQualifiedRuleDeclarationList")
 //@   ensures[F,C08] @end-atrule: result == EndAtRuleGrammar ==> len(p.state) == old(len(p.state)) - 1 && isAtRuleBlock(old(p.state[len(p.state)-1]))
@@ -215,17 +213,11 @@ package css
 //@ func Parser.parseDeclarationList
 //@   loop * candidate len(p.state) == old(len(p.state))
 //@   loop * candidate p.prevEnd == old(p.prevEnd)
-//@   loop * candidate cpM(p) <= old(cpM(p))
-//@   loop * candidate cpM(p) < old(cpM(p))
-//@   loop * candidate (p.tt == old(p.tt) && cpM(p) == old(cpM(p))) || cpM(p) <= old(cpM(p)) - 2
-//@   loop * candidate first || cpM(p) < old(cpM(p))
 //@   loop * candidate forall(i, 0, len(p.state), p.state[i] == old(p.state[i]))
 //@   loop * candidate p.err == old(p.err)
 //@   loop * invariant old(p.tt) == ErrorToken ==> p.tt == ErrorToken && len(p.state) == old(len(p.state)) && p.l.r.pos == old(p.l.r.pos) && p.prevEnd == old(p.prevEnd)
 //@   preserves[S] cpInv(p) && p.l.r.pos >= old(p.l.r.pos)
 //@   requires[S] p.state[len(p.state)-1] == self() || (isBlockState(p.state[len(p.state)-1]) && !isBlockState(self()) && p.tt != ErrorToken && p.tt != SemicolonToken && p.tt != CommentToken && p.tt != RightBraceToken)
-//@   ensures[S,C01] @measure: cpM(p) <= old(cpM(p)) + ite(old(p.tt) == LeftBraceToken, 1, 0)
-//@   ensures[S,C01] @eof-step: old(p.tt) == ErrorToken ==> cpM(p) < old(cpM(p)) || (result == ErrorGrammar && len(p.state) == 1)
 //@   ensures[F,C08] @begin-atrule: result == BeginAtRuleGrammar ==> len(p.state) == old(len(p.state)) + 1 && isAtRuleBlock(p.state[len(p.state)-1])
 //@   ensures[F,C08] @begin-ruleset: result == BeginRulesetGrammar ==> len(p.state) == old(len(p.state)) + 1 && p.state[len(p.state)-1] == fn("css.Parser.parseQualifiedRuleDeclarationList")
 //@   ensures[F,C08] @end-atrule: result == EndAtRuleGrammar ==> len(p.state) == old(len(p.state)) - 1 && isAtRuleBlock(old(p.state[len(p.state)-1]))
@@ -237,8 +229,6 @@ package css
 //@ func Parser.parseAtRuleRuleList
 //@   preserves[S] cpInv(p) && p.l.r.pos >= old(p.l.r.pos)
 //@   requires[S] p.state[len(p.state)-1] == self() || (isBlockState(p.state[len(p.state)-1]) && !isBlockState(self()) && p.tt != ErrorToken && p.tt != SemicolonToken && p.tt != CommentToken && p.tt != RightBraceToken)
-//@   ensures[S,C01] @measure: cpM(p) <= old(cpM(p)) + ite(old(p.tt) == LeftBraceToken, 1, 0)
-//@   ensures[S,C01] @eof-step: old(p.tt) == ErrorToken ==> cpM(p) < old(cpM(p)) || (result == ErrorGrammar && len(p.state) == 1)
 //@   ensures[F,C08] @begin-atrule: result == BeginAtRuleGrammar ==> len(p.state) == old(len(p.state)) + 1 && isAtRuleBlock(p.state[len(p.state)-1])
 //@   ensures[F,C08] @begin-ruleset: result == BeginRulesetGrammar ==> len(p.state) == old(len(p.state)) + 1 && p.state[len(p.state)-1] == fn("css.Parser.parseQualifiedRuleDeclarationList")
 //@   ensures[F,C08] @end-atrule: result == EndAtRuleGrammar ==> len(p.state) == old(len(p.state)) - 1 && isAtRuleBlock(old(p.state[len(p.state)-1]))
@@ -250,17 +240,11 @@ package css
 //@ func Parser.parseAtRuleDeclarationList
 //@   loop * candidate len(p.state) == old(len(p.state))
 //@   loop * candidate p.prevEnd == old(p.prevEnd)
-//@   loop * candidate cpM(p) <= old(cpM(p))
-//@   loop * candidate cpM(p) < old(cpM(p))
-//@   loop * candidate (p.tt == old(p.tt) && cpM(p) == old(cpM(p))) || cpM(p) <= old(cpM(p)) - 2
-//@   loop * candidate first || cpM(p) < old(cpM(p))
 //@   loop * candidate forall(i, 0, len(p.state), p.state[i] == old(p.state[i]))
 //@   loop * candidate p.err == old(p.err)
 //@   loop * invariant old(p.tt) == ErrorToken ==> p.tt == ErrorToken && len(p.state) == old(len(p.state)) && p.l.r.pos == old(p.l.r.pos) && p.prevEnd == old(p.prevEnd)
 //@   preserves[S] cpInv(p) && p.l.r.pos >= old(p.l.r.pos)
 //@   requires[S] p.state[len(p.state)-1] == self() || (isBlockState(p.state[len(p.state)-1]) && !isBlockState(self()) && p.tt != ErrorToken && p.tt != SemicolonToken && p.tt != CommentToken && p.tt != RightBraceToken)
-//@   ensures[S,C01] @measure: cpM(p) <= old(cpM(p)) + ite(old(p.tt) == LeftBraceToken, 1, 0)
-//@   ensures[S,C01] @eof-step: old(p.tt) == ErrorToken ==> cpM(p) < old(cpM(p)) || (result == ErrorGrammar && len(p.state) == 1)
 //@   ensures[F,C08] @begin-atrule: result == BeginAtRuleGrammar ==> len(p.state) == old(len(p.state)) + 1 && isAtRuleBlock(p.state[len(p.state)-1])
 //@   ensures[F,C08] @begin-ruleset: result == BeginRulesetGrammar ==> len(p.state) == old(len(p.state)) + 1 && p.state[len(p.state)-1] == fn("css.Parser.parseQualifiedRuleDeclarationList")
 //@   ensures[F,C08] @end-atrule: result == EndAtRuleGrammar ==> len(p.state) == old(len(p.state)) - 1 && isAtRuleBlock(old(p.state[len(p.state)-1]))
@@ -272,8 +256,6 @@ package css
 //@ func Parser.parseAtRuleUnknown
 //@   preserves[S] cpInv(p) && p.l.r.pos >= old(p.l.r.pos)
 //@   requires[S] p.state[len(p.state)-1] == self() || (isBlockState(p.state[len(p.state)-1]) && !isBlockState(self()) && p.tt != ErrorToken && p.tt != SemicolonToken && p.tt != CommentToken && p.tt != RightBraceToken)
-//@   ensures[S,C01] @measure: cpM(p) <= old(cpM(p)) + ite(old(p.tt) == LeftBraceToken, 1, 0)
-//@   ensures[S,C01] @eof-step: old(p.tt) == ErrorToken ==> cpM(p) < old(cpM(p)) || (result == ErrorGrammar && len(p.state) == 1)
 //@   ensures[F,C08] @begin-atrule: result == BeginAtRuleGrammar ==> len(p.state) == old(len(p.state)) + 1 && isAtRuleBlock(p.state[len(p.state)-1])
 //@   ensures[F,C08] @begin-ruleset: result == BeginRulesetGrammar ==> len(p.state) == old(len(p.state)) + 1 && p.state[len(p.state)-1] == fn("css.Parser.parseQualifiedRuleDeclarationList")
 //@   ensures[F,C08] @end-atrule: result == EndAtRuleGrammar ==> len(p.state) == old(len(p.state)) - 1 && isAtRuleBlock(old(p.state[len(p.state)-1]))
@@ -285,17 +267,11 @@ package css
 //@ func Parser.parseQualifiedRuleDeclarationList
 //@   loop * candidate len(p.state) == old(len(p.state))
 //@   loop * candidate p.prevEnd == old(p.prevEnd)
-//@   loop * candidate cpM(p) <= old(cpM(p))
-//@   loop * candidate cpM(p) < old(cpM(p))
-//@   loop * candidate (p.tt == old(p.tt) && cpM(p) == old(cpM(p))) || cpM(p) <= old(cpM(p)) - 2
-//@   loop * candidate first || cpM(p) < old(cpM(p))
 //@   loop * candidate forall(i, 0, len(p.state), p.state[i] == old(p.state[i]))
 //@   loop * candidate p.err == old(p.err)
 //@   loop * invariant old(p.tt) == ErrorToken ==> p.tt == ErrorToken && len(p.state) == old(len(p.state)) && p.l.r.pos == old(p.l.r.pos) && p.prevEnd == old(p.prevEnd)
 //@   preserves[S] cpInv(p) && p.l.r.pos >= old(p.l.r.pos)
 //@   requires[S] p.state[len(p.state)-1] == self() || (isBlockState(p.state[len(p.state)-1]) && !isBlockState(self()) && p.tt != ErrorToken && p.tt != SemicolonToken && p.tt != CommentToken && p.tt != RightBraceToken)
-//@   ensures[S,C01] @measure: cpM(p) <= old(cpM(p)) + ite(old(p.tt) == LeftBraceToken, 1, 0)
-//@   ensures[S,C01] @eof-step: old(p.tt) == ErrorToken ==> cpM(p) < old(cpM(p)) || (result == ErrorGrammar && len(p.state) == 1)
 //@   ensures[F,C08] @begin-atrule: result == BeginAtRuleGrammar ==> len(p.state) == old(len(p.state)) + 1 && isAtRuleBlock(p.state[len(p.state)-1])
 //@   ensures[F,C08] @begin-ruleset: result == BeginRulesetGrammar ==> len(p.state) == old(len(p.state)) + 1 && p.state[len(p.state)-1] == fn("css.Parser.parseQualifiedRuleDeclarationList")
 //@   ensures[F,C08] @end-atrule: result == EndAtRuleGrammar ==> len(p.state) == old(len(p.state)) - 1 && isAtRuleBlock(old(p.state[len(p.state)-1]))
@@ -307,14 +283,9 @@ package css
 //@ func Parser.parseAtRule
 //@   loop * candidate len(p.state) == old(len(p.state))
 //@   loop * candidate p.prevEnd == old(p.prevEnd)
-//@   loop * candidate cpM(p) <= old(cpM(p))
-//@   loop * candidate cpM(p) < old(cpM(p))
-//@   loop * candidate (p.tt == old(p.tt) && cpM(p) == old(cpM(p))) || cpM(p) <= old(cpM(p)) - 2
-//@   loop * candidate first || cpM(p) < old(cpM(p))
 //@   loop * candidate forall(i, 0, len(p.state), p.state[i] == old(p.state[i]))
 //@   loop * candidate p.err == old(p.err)
 //@   preserves[S] cpInv(p) && p.l.r.pos >= old(p.l.r.pos)
-//@   ensures[S,C01] @measure: cpM(p) <= old(cpM(p)) + ite(old(p.tt) == LeftBraceToken, 1, 0)
 //@   ensures[F,C08] @begin-atrule: result == BeginAtRuleGrammar ==> len(p.state) == old(len(p.state)) + 1 && isAtRuleBlock(p.state[len(p.state)-1])
 //@   ensures[F,C08] @begin-ruleset: result == BeginRulesetGrammar ==> len(p.state) == old(len(p.state)) + 1 && p.state[len(p.state)-1] == fn("css.Parser.parseQualifiedRuleDeclarationList")
 //@   ensures[F,C08] @end-atrule: result == EndAtRuleGrammar ==> len(p.state) == old(len(p.state)) - 1 && isAtRuleBlock(old(p.state[len(p.state)-1]))
@@ -327,16 +298,11 @@ package css
 //@ func Parser.parseQualifiedRule
 //@   loop * candidate len(p.state) == old(len(p.state))
 //@   loop * candidate p.prevEnd == old(p.prevEnd)
-//@   loop * candidate cpM(p) <= old(cpM(p))
-//@   loop * candidate cpM(p) < old(cpM(p))
-//@   loop * candidate (p.tt == old(p.tt) && cpM(p) == old(cpM(p))) || cpM(p) <= old(cpM(p)) - 2
-//@   loop * candidate first || cpM(p) < old(cpM(p))
 //@   loop * candidate forall(i, 0, len(p.state), p.state[i] == old(p.state[i]))
 //@   loop * candidate p.err == old(p.err)
 //@   loop * candidate p.tt != CommentToken
 //@   loop * candidate first || p.tt == WhitespaceToken
 //@   preserves[S] cpInv(p) && p.l.r.pos >= old(p.l.r.pos)
-//@   ensures[S,C01] @measure: cpM(p) <= old(cpM(p)) + ite(old(p.tt) == LeftBraceToken, 1, 0)
 //@   ensures[F,C08] @begin-atrule: result == BeginAtRuleGrammar ==> len(p.state) == old(len(p.state)) + 1 && isAtRuleBlock(p.state[len(p.state)-1])
 //@   ensures[F,C08] @begin-ruleset: result == BeginRulesetGrammar ==> len(p.state) == old(len(p.state)) + 1 && p.state[len(p.state)-1] == fn("css.Parser.parseQualifiedRuleDeclarationList")
 //@   ensures[F,C08] @end-atrule: result == EndAtRuleGrammar ==> len(p.state) == old(len(p.state)) - 1 && isAtRuleBlock(old(p.state[len(p.state)-1]))
@@ -348,14 +314,9 @@ package css
 //@ func Parser.parseDeclaration
 //@   loop * candidate len(p.state) == old(len(p.state))
 //@   loop * candidate p.prevEnd == old(p.prevEnd)
-//@   loop * candidate cpM(p) <= old(cpM(p))
-//@   loop * candidate cpM(p) < old(cpM(p))
-//@   loop * candidate (p.tt == old(p.tt) && cpM(p) == old(cpM(p))) || cpM(p) <= old(cpM(p)) - 2
-//@   loop * candidate first || cpM(p) < old(cpM(p))
 //@   loop * candidate forall(i, 0, len(p.state), p.state[i] == old(p.state[i]))
 //@   loop * candidate p.err == old(p.err)
 //@   preserves[S] cpInv(p) && p.l.r.pos >= old(p.l.r.pos)
-//@   ensures[S,C01] @measure: cpM(p) <= old(cpM(p)) + ite(old(p.tt) == LeftBraceToken, 1, 0)
 //@   ensures[F,C08] @begin-atrule: result == BeginAtRuleGrammar ==> len(p.state) == old(len(p.state)) + 1 && isAtRuleBlock(p.state[len(p.state)-1])
 //@   ensures[F,C08] @begin-ruleset: result == BeginRulesetGrammar ==> len(p.state) == old(len(p.state)) + 1 && p.state[len(p.state)-1] == fn("css.Parser.parseQualifiedRuleDeclarationList")
 //@   ensures[F,C08] @end-atrule: result == EndAtRuleGrammar ==> len(p.state) == old(len(p.state)) - 1 && isAtRuleBlock(old(p.state[len(p.state)-1]))
@@ -371,14 +332,9 @@ package css
 //@ func Parser.parseDeclarationError
 //@   loop * candidate len(p.state) == old(len(p.state))
 //@   loop * candidate p.prevEnd == old(p.prevEnd)
-//@   loop * candidate cpM(p) <= old(cpM(p))
-//@   loop * candidate cpM(p) < old(cpM(p))
-//@   loop * candidate (p.tt == old(p.tt) && cpM(p) == old(cpM(p))) || cpM(p) <= old(cpM(p)) - 2
-//@   loop * candidate first || cpM(p) < old(cpM(p))
 //@   loop * candidate forall(i, 0, len(p.state), p.state[i] == old(p.state[i]))
 //@   loop * candidate p.err == old(p.err)
 //@   preserves[S] cpInv(p) && p.l.r.pos >= old(p.l.r.pos)
-//@   ensures[S,C01] @measure: cpM(p) <= old(cpM(p)) + ite(tt == RightBraceToken || tt == LeftBraceToken, 1, 0)
 //@   ensures[F,C08] @begin-atrule: result == BeginAtRuleGrammar ==> len(p.state) == old(len(p.state)) + 1 && isAtRuleBlock(p.state[len(p.state)-1])
 //@   ensures[F,C08] @begin-ruleset: result == BeginRulesetGrammar ==> len(p.state) == old(len(p.state)) + 1 && p.state[len(p.state)-1] == fn("css.Parser.parseQualifiedRuleDeclarationList")
 //@   ensures[F,C08] @end-atrule: result == EndAtRuleGrammar ==> len(p.state) == old(len(p.state)) - 1 && isAtRuleBlock(old(p.state[len(p.state)-1]))
@@ -393,14 +349,9 @@ package css
 //@ func Parser.parseCustomProperty
 //@   loop * candidate len(p.state) == old(len(p.state))
 //@   loop * candidate p.prevEnd == old(p.prevEnd)
-//@   loop * candidate cpM(p) <= old(cpM(p))
-//@   loop * candidate cpM(p) < old(cpM(p))
-//@   loop * candidate (p.tt == old(p.tt) && cpM(p) == old(cpM(p))) || cpM(p) <= old(cpM(p)) - 2
-//@   loop * candidate first || cpM(p) < old(cpM(p))
 //@   loop * candidate forall(i, 0, len(p.state), p.state[i] == old(p.state[i]))
 //@   loop * candidate p.err == old(p.err)
 //@   preserves[S] cpInv(p) && p.l.r.pos >= old(p.l.r.pos)
-//@   ensures[S,C01] @measure: cpM(p) <= old(cpM(p)) + ite(old(p.tt) == LeftBraceToken, 1, 0)
 //@   ensures[F,C08] @begin-atrule: result == BeginAtRuleGrammar ==> len(p.state) == old(len(p.state)) + 1 && isAtRuleBlock(p.state[len(p.state)-1])
 //@   ensures[F,C08] @begin-ruleset: result == BeginRulesetGrammar ==> len(p.state) == old(len(p.state)) + 1 && p.state[len(p.state)-1] == fn("css.Parser.parseQualifiedRuleDeclarationList")
 //@   ensures[F,C08] @end-atrule: result == EndAtRuleGrammar ==> len(p.state) == old(len(p.state)) - 1 && isAtRuleBlock(old(p.state[len(p.state)-1]))
@@ -414,8 +365,6 @@ package css
 //@ func Parser.Next
 //@   dyncall like Parser.parseStylesheet on p
 //@   preserves[S] cpInv(p) && p.l.r.pos >= old(p.l.r.pos)
-//@   ensures[S,C01] @progress: cpM(p) < old(cpM(p)) || (result0 == ErrorGrammar && len(p.state) == 1 && p.l.r.pos == old(p.l.r.pos))
-//@   ensures[S,C01] @sticky: old(p.l.r.pos) == len(p.l.r.buf)-1 && old(len(p.state)) == 1 && !old(p.prevEnd) ==> result0 == ErrorGrammar && len(p.state) == 1 && p.l.r.pos == old(p.l.r.pos)
 //@   ensures[F,C08] @begin-atrule: result0 == BeginAtRuleGrammar ==> len(p.state) == old(len(p.state)) + 1 && isAtRuleBlock(p.state[len(p.state)-1])
 //@   ensures[F,C08] @begin-ruleset: result0 == BeginRulesetGrammar ==> len(p.state) == old(len(p.state)) + 1 && p.state[len(p.state)-1] == fn("css.Parser.parseQualifiedRuleDeclarationList")
 //@   ensures[F,C08] @end-atrule: result0 == EndAtRuleGrammar ==> len(p.state) == old(len(p.state)) - 1 && isAtRuleBlock(old(p.state[len(p.state)-1]))
